@@ -532,7 +532,7 @@ const rule = "t-tests: rapid-generated samples (n 0..40; data = centre + spread*
 	"forward error bound, P vs an independent Student-t CDF (gonum mathext, anchored to closed forms for 1..4 dof) of the " +
 	"returned (T,DoF) to 1e-9, documented errors, swap law, shift/scale invariance. MeanCI: n 0..40, c in [0,1] and beyond; " +
 	"mean, symmetry, zero/infinite width rules, Student-t probability content within 1e-9 of c. Non-trivial: no error and " +
-	"1e-12<P<1-1e-12 (t-test); 0<c<1 with n>=2 non-constant (MeanCI). distinct = different canonical JSON."
+	"1e-12<P<1-1e-12 (t-test); 0<c<1 with n>=2 non-constant (MeanCI). distinct = different canonical JSON. Later additions: MeanCI at every n in 2..40 for the levels k/512; two-sample calls on windows of one array."
 
 func drawData(t *rapid.T, n int, label string) []float64 {
 	centre := 0.0
